@@ -125,6 +125,13 @@ type VMap struct {
 type VAddr struct {
 	Obj types.Object
 }
+
+// address of a field of an object: &x.f (destination of an external call that fills it in, e.g. sql Rows.Scan)
+type VFieldAddr struct {
+	Base  VTerm
+	Field string
+	Typ   types.Type
+}
 type VClosure struct {
 	Lit *ast.FuncLit
 }
